@@ -34,9 +34,12 @@ AuxDefs ==
    Zeta  |-> <<Sc("K", "u8"), [F0 EXCEPT !.k = "match", !.name = "Z", !.key = "K",
                                 !.pairs = << [keys |-> << <<1>> >>, lits |-> <<"1">>, pkt |-> "A"], [keys |-> << <<2>>, <<3>> >>, lits |-> <<"2", "3">>, pkt |-> "B"] >>], Sc("tail", "u16")>>,
    Outer |-> <<[F0 EXCEPT !.k = "obj", !.name = "Sub", !.ty = "Sub"], [F0 EXCEPT !.k = "obj", !.name = "ls", !.ty = "Lst"], Sc("t", "u8")>>,
-   WithObj |-> <<[F0 EXCEPT !.k = "obj", !.name = "Sub", !.ty = "Sub"], [F0 EXCEPT !.k = "obj", !.name = "subs", !.ty = "Sub", !.rep = TRUE], Sc("z", "u8")>>]
+   WithObj |-> <<[F0 EXCEPT !.k = "obj", !.name = "Sub", !.ty = "Sub"], [F0 EXCEPT !.k = "obj", !.name = "subs", !.ty = "Sub", !.rep = TRUE], Sc("z", "u8")>>,
+   \* a NON-root packet with an inline object whose member is a packet declared later in the text
+   Wrap  |-> <<[F0 EXCEPT !.k = "inl", !.name = "Part", !.fs = <<Sc("p", "u8"), [F0 EXCEPT !.k = "obj", !.name = "Late", !.ty = "Late"]>>], Sc("t", "u8")>>,
+   Late  |-> <<Sc("v", "u16")>>]
 \* declaration order: the packets that reference other packets come first, so those references point forward
-AuxNames == <<"Outer", "WithObj", "Zeta", "A", "B", "Empty", "Sub", "Lst", "Big", "CkPkt">>
+AuxNames == <<"Outer", "WithObj", "Zeta", "Wrap", "A", "B", "Empty", "Sub", "Lst", "Big", "CkPkt", "Late">>
 
 MetaDefs ==
   << [name |-> "Code",  k |-> "fix",   ty |-> "",    n |-> 6, pad |-> "z",    ref |-> "",     doc |-> "code"],
@@ -75,6 +78,7 @@ ObjCells(i) ==
 \cup { Cell("obj:withck" \o (IF r THEN ":rep" ELSE ""), <<Sc(Nm("pre", i), "u16"), [F0 EXCEPT !.k = "obj", !.name = Nm("c", i), !.ty = "CkPkt", !.rep = r], Sc(Nm("post", i), "u8")>>, {"CkPkt"}, FALSE) : r \in Reps }
 \cup { Cell("obj:withmatch" \o (IF r THEN ":rep" ELSE ""), <<[F0 EXCEPT !.k = "obj", !.name = Nm("z", i), !.ty = "Zeta", !.rep = r], Sc(Nm("post", i), "u8")>>, {"Zeta", "A", "B"}, FALSE) : r \in Reps }
 \cup { Cell("obj:depth2" \o (IF r THEN ":rep" ELSE ""), <<[F0 EXCEPT !.k = "obj", !.name = Nm("o", i), !.ty = "Outer", !.rep = r], Sc(Nm("post", i), "u8")>>, {"Outer", "Sub", "Lst"}, FALSE) : r \in Reps }
+\cup { Cell("obj:inlinaux" \o (IF r THEN ":rep" ELSE ""), <<[F0 EXCEPT !.k = "obj", !.name = Nm("w", i), !.ty = "Wrap", !.rep = r], Sc(Nm("post", i), "u8")>>, {"Wrap", "Late"}, FALSE) : r \in Reps }
 \cup { Cell("obj:strings:rep", <<[F0 EXCEPT !.k = "obj", !.name = Nm("bs", i), !.ty = "B", !.rep = TRUE]>>, {"B"}, FALSE) }
 \cup { Cell("obj:withlist", <<[F0 EXCEPT !.k = "obj", !.name = Nm("Ls", i), !.ty = "Lst"]>>, {"Lst"}, FALSE) }
 \cup { Cell("obj:listoflists", <<[F0 EXCEPT !.k = "obj", !.name = Nm("Ls", i), !.ty = "Lst", !.rep = TRUE]>>, {"Lst"}, FALSE) }
@@ -99,7 +103,8 @@ KeyLits(kty) ==  \* three key literals with their canonical bytes for key type k
   CASE kty = "u8"  -> << [l |-> "1", b |-> <<1>>], [l |-> "2", b |-> <<2>>], [l |-> "255", b |-> <<255>>] >>
     [] kty = "u16" -> << [l |-> "1", b |-> <<0, 1>>], [l |-> "2", b |-> <<0, 2>>], [l |-> "65535", b |-> <<255, 255>>] >>
     [] kty = "u32" -> << [l |-> "1", b |-> <<0, 0, 0, 1>>], [l |-> "2", b |-> <<0, 0, 0, 2>>], [l |-> "4294967295", b |-> <<255, 255, 255, 255>>] >>
-    [] kty = "u64" -> << [l |-> "1", b |-> <<0, 0, 0, 0, 0, 0, 0, 1>>], [l |-> "2", b |-> <<0, 0, 0, 0, 0, 0, 0, 2>>],
+    \* the second key lies between 2^31 and 2^32: not an int literal of a language with 32-bit ints, and sign-extended by a careless widening
+    [] kty = "u64" -> << [l |-> "1", b |-> <<0, 0, 0, 0, 0, 0, 0, 1>>], [l |-> "3000000000", b |-> <<0, 0, 0, 0, 178, 208, 94, 0>>],
                          [l |-> "18446744073709551615", b |-> <<255, 255, 255, 255, 255, 255, 255, 255>>] >>
     [] kty = "i32" -> << [l |-> "1", b |-> <<0, 0, 0, 1>>], [l |-> "2", b |-> <<0, 0, 0, 2>>], [l |-> "2147483647", b |-> <<127, 255, 255, 255>>] >>
     [] OTHER       -> << [l |-> "\"AB\"", b |-> <<65, 66>>], [l |-> "\"C\"", b |-> <<67>>], [l |-> "\"DE\"", b |-> <<68, 69>>] >>
@@ -129,6 +134,14 @@ MatchCells(i) == { LET tbl == Tables(kty)[form] IN
                                                   [F0 EXCEPT !.k = "match", !.name = Nm("ba", i), !.key = Nm("ka", i), !.pairs = t1],
                                                   Sc(Nm("mid", i), "u8"),
                                                   [F0 EXCEPT !.k = "match", !.name = Nm("bb", i), !.key = Nm("kb", i), !.pairs = t2]>>, AuxOf(t1) \cup AuxOf(t2), FALSE) }
+                 \* the key field is typed by a MetaData entry
+                 \cup { LET tbl == Tables("u32")[form] IN
+                        Cell("match:metakey:" \o form, <<[F0 EXCEPT !.k = "meta", !.name = Nm("key", i), !.ty = "Qty"], MatchF(i, tbl)>>, AuxOf(tbl), TRUE) : form \in {"two", "list"} }
+                 \* two match fields over the SAME key field
+                 \cup { LET t1 == Tables("u8")["two"] t2 == Tables("u8")["sameTgt"] IN
+                        Cell("match:samekey", <<Sc(Nm("k", i), "u8"),
+                                                [F0 EXCEPT !.k = "match", !.name = Nm("ba", i), !.key = Nm("k", i), !.pairs = t1],
+                                                [F0 EXCEPT !.k = "match", !.name = Nm("bb", i), !.key = Nm("k", i), !.pairs = t2]>>, AuxOf(t1) \cup AuxOf(t2), FALSE) }
                  \* key and match inside an inline object
                  \cup { LET t == Tables("u8")["two"] IN
                         Cell("match:insideinl", <<[F0 EXCEPT !.k = "inl", !.name = Nm("Env", i),
@@ -147,6 +160,9 @@ LenCells(i) == IF i # 1 THEN {} ELSE
 \cup { Cell("len:" \o w \o ":obj",
             <<[F0 EXCEPT !.k = "len", !.name = Nm("olen", i), !.ty = w, !.tgt = Nm("Tgt", i)], [F0 EXCEPT !.k = "obj", !.name = Nm("Tgt", i), !.ty = "B"]>>, {"B"}, FALSE) :
          w \in {"u8", "u16", "u32", "u64"} }
+\* the type of the length field is taken from the MetaData entry of the same name (no type written)
+\cup { LET tbl == Tables("u16")["two"] IN
+       Cell("len:notype:match", <<Sc(Nm("key", i), "u16"), [F0 EXCEPT !.k = "len", !.name = "BodyLen", !.ty = "u16", !.tgt = Nm("body", i), !.pad = "notype"], MatchF(i, tbl)>>, AuxOf(tbl), TRUE) }
 \* fields between the length field and its target must not be counted
 LenGapCells(i) == IF i # 1 THEN {} ELSE
      { LET tbl == Tables("u16")["payloads"] IN
@@ -165,6 +181,7 @@ CkCells(i) ==
             <<Sc(Nm("pre", i), "u32"), [F0 EXCEPT !.k = "ck", !.name = Nm("cka", i), !.ty = "u16", !.alg = a1],
               Sc(Nm("mid", i), "u16"), [F0 EXCEPT !.k = "ck", !.name = Nm("ckb", i), !.ty = "u32", !.alg = a2]>>, {}, FALSE) :
          a1 \in {"REG", "NONE"}, a2 \in {"REG", "NONE"} }
+\cup { Cell("ck:notype", <<Sc(Nm("pre", i), "u32"), [F0 EXCEPT !.k = "ck", !.name = "CheckSum", !.ty = "u32", !.alg = "REG", !.pad = "notype"]>>, {}, TRUE) }
 \cup { Cell("ck:u16:followed", <<[F0 EXCEPT !.k = "ck", !.name = Nm("ck", i), !.ty = "u16", !.alg = "REG"], Sc(Nm("post", i), "u8")>>, {}, FALSE) }
 RegName(w) == CASE w = "u8" -> "VSUM8" [] w = "u16" -> "VSUM16" [] w = "u32" -> "VSUM32" [] OTHER -> "VSUM64"
 FixAlg(f) == IF f.k = "ck" /\ f.alg = "REG" THEN [f EXCEPT !.alg = RegName(f.ty)] ELSE f
